@@ -4,6 +4,7 @@
 mod con;
 mod cross;
 mod e2e;
+mod focus;
 mod idx;
 mod maps;
 mod pg;
@@ -39,6 +40,7 @@ fn main() {
         "cross.ext" => cross::run_ext(seed, thorough),
         "cross.ext.pg" => cross::run_ext_pg(seed, thorough),
         "cross.repro" => cross::run_repro(seed, thorough, args.iter().any(|a| a == "--warmup")),
+        "focus" => focus::run(args.get(2).map(|s| s.as_str()).unwrap_or(""), seed, thorough),
         "e2e.table" => e2e::run_table(seed, thorough, if thorough { 20000 } else { 1200 }),
         _ => {
             eprintln!("unknown stage {stage}");
